@@ -14,7 +14,9 @@ VARIABLES hist, done
 
 gvars == <<conn, subs, out, last, hist, done>>
 
-GenConns == {<<"binance_spot", "public_trades", "spot">>}
+\* an L1 route, so that the generated items range over all four side values; the harness maps
+\* "bid_only"/"ask_only" to "buy"/"sell" (or skips the scenario) on routes that are not L1
+GenConns == {<<"kraken", "l1", "spot">>}
 TheConn == CHOOSE c \in Conns : TRUE
 
 GInit == Init /\ hist = <<>> /\ done = FALSE
@@ -24,7 +26,7 @@ GStep == /\ ~done /\ Len(hist) < MaxLen
          /\ hist' = Append(hist, last')
          /\ UNCHANGED done
 
-RandomItem(n) == Item(RandomElement(PRICE), RandomElement(AMOUNT), RandomElement(Sides), RandomElement(TIME))
+RandomItem(n) == Item(RandomElement(PRICE), RandomElement(AMOUNT), RandomElement(L1Sides), RandomElement(TIME))
 
 GStepR == /\ ~done /\ Len(hist) < MaxLen
           /\ IF conn = NoConn
